@@ -37,8 +37,15 @@ pub fn setup_veth() {
     sh("ip link add veth2 type veth peer name veth3");
     sh("ip link set veth2 address 02:00:00:00:02:01 && ip link set veth3 address 02:00:00:00:02:02");
     sh("ip addr add 10.9.0.1/24 dev veth2");
-    sh("sysctl -q -w net.ipv6.conf.veth2.disable_ipv6=1 net.ipv6.conf.veth3.disable_ipv6=1 >/dev/null 2>&1 || true");
+    sh("sysctl -q -w net.ipv6.conf.veth2.accept_dad=0 net.ipv6.conf.veth3.accept_dad=0 net.ipv6.conf.veth2.accept_ra=0 net.ipv6.conf.veth3.accept_ra=0 net.ipv6.conf.veth2.router_solicitations=0 net.ipv6.conf.veth3.router_solicitations=0 >/dev/null 2>&1 || true");
     sh("ip link set veth2 up && ip link set veth3 up");
+    // an IPv6 default route through ANOTHER interface than the advertising one: the service is then a default router
+    // (default router lifetime 1800 s), which makes `lifetime: null` (0) and an absent lifetime distinguishable on the wire
+    sh("ip -6 route add default dev veth2 metric 1024");
+    // the lease scenarios lease addresses from 10.0.0.0/12: renewing clients send from them, so they must be reachable
+    // through veth2 or the kernel drops their packets as martians
+    sh("sysctl -q -w net.ipv4.conf.all.rp_filter=0 net.ipv4.conf.veth2.rp_filter=0 >/dev/null 2>&1 || true");
+    sh("ip route add 10.0.0.0/12 dev veth2");
 }
 
 // ------------------------------------------------------------ packet socket --
@@ -503,6 +510,7 @@ fn metric(body: &str, name: &str) -> i64 {
 /// How many DHCP packets the service has finished with: every path through recvdhcp ends by counting a sent packet
 /// or an error (its own Prometheus counters, read in-process).  Lets the driver wait for "handled" instead of guessing
 /// a timeout for "no reply".
+static UNCOUNTED: std::sync::atomic::AtomicU64 = std::sync::atomic::AtomicU64::new(0);
 fn dhcp_handled() -> (u64, u64) {
     let (mut sent, mut errors) = (0u64, 0u64);
     for mf in prometheus::gather() {
@@ -589,7 +597,13 @@ fn lease_msg_svc(st: &mut crate::dhcp::Store, sock: &PacketSock, live: &erbium::
     }
     let ciaddr = if req > 0 && via_ciaddr { addr(req).octets() } else { [0; 4] };
     let payload = dhcp_msg_flags(xid, &chaddr, flags, ciaddr, &opts);
-    let frame = udp_frame(chaddr, [0xff; 6], [0, 0, 0, 0], 68, [255, 255, 255, 255], 67, &payload);
+    // clients address the server in three ways: limited broadcast, the subnet's directed broadcast, unicast to the server
+    // (a client without an address can only broadcast; one that renews sends from its address, and may unicast)
+    let frame = match (xid as i64 + c + mtype) % 3 {
+        0 => udp_frame(chaddr, [0xff; 6], [10, 9, 0, 200], 68, [10, 9, 0, 255], 67, &payload), // (some on-link source: 0.0.0.0 may only go to the limited broadcast)
+        1 if ciaddr != [0; 4] => udp_frame(chaddr, [2, 0, 0, 0, 2, 1], ciaddr, 68, [10, 9, 0, 1], 67, &payload),
+        _ => udp_frame(chaddr, [0xff; 6], ciaddr, 68, [255, 255, 255, 255], 67, &payload),
+    };
     let before = st.table();
     let t0 = st.now();
     let handled0 = dhcp_handled();
@@ -599,7 +613,7 @@ fn lease_msg_svc(st: &mut crate::dhcp::Store, sock: &PacketSock, live: &erbium::
             return None;
         }
         // wait until the service has finished with the packet (sent a reply or counted an error), then look for the frame
-        let end = std::time::Instant::now() + std::time::Duration::from_secs(6);
+        let end = std::time::Instant::now() + std::time::Duration::from_secs(3);
         loop {
             if let Some(r) = sock.recv_dhcp(5) {
                 return Some(r);
@@ -612,12 +626,17 @@ fn lease_msg_svc(st: &mut crate::dhcp::Store, sock: &PacketSock, live: &erbium::
                 return None; // the service gave up on this packet: there will be no frame
             }
             if std::time::Instant::now() > end {
-                // never counted: as a last resort the old rule (a changed store announces a reply)
+                // never counted (the kernel did not deliver the frame?): as a last resort the old rule (a changed store announces a reply)
+                UNCOUNTED.fetch_add(1, std::sync::atomic::Ordering::SeqCst);
                 return if st.table() != before { sock.recv_dhcp(2000) } else { None };
             }
         }
     });
     let t1 = st.now();
+    if reply.is_none() && dhcp_handled() == handled0 && st.table() == before {
+        // the service never counted this frame (it was not delivered): not an event of the service
+        return json!({"ev":"undelivered","lvl":"svc","c":c,"mtype":mtype,"ciaddr":ciaddr,"how":(xid as i64 + c + mtype) % 3,"len":payload.len()});
+    }
     let ours = |a: std::net::Ipv4Addr| a == SERVERIP;
     let mut echo = true;
     let mut rsid = true;
@@ -1060,7 +1079,7 @@ pub fn http(args: &[String]) {
                 p.clear();
                 (n, first)
             };
-            out.emit(json!({"ev":"endcase","case":ci,"panics":np.0,"first_panic":np.1}));
+            out.emit(json!({"ev":"endcase","case":ci,"panics":np.0,"first_panic":np.1,"frames_never_counted_by_the_service":UNCOUNTED.load(std::sync::atomic::Ordering::SeqCst)}));
             out.flush();
         }
     });
